@@ -50,6 +50,9 @@ pub struct PathCase {
     pub via_executable: bool,
     /// Some: the command contains a slash (no search); bool = does the target exist
     pub slash: Option<(Slash, bool)>,
+    /// the PATH directories have names that are not valid UTF-8
+    #[serde(default)]
+    pub non_utf8: bool,
     pub cwd: bool,
 }
 
@@ -81,7 +84,14 @@ pub fn check_case(ctx: &Ctx, case: &PathCase, rep: &mut CaseReport) -> CaseResul
     // per entry: (directory, Option<errno>) ; None errno = runnable
     let mut model: Vec<Option<(PathBuf, Option<i32>)>> = vec![];
     for (i, e) in case.entries.iter().enumerate() {
-        let d = root.join(format!("D{}", i));
+        let d = if case.non_utf8 {
+            let mut n = format!("D{}", i).into_bytes();
+            n.push(0xff);
+            n.push(b'x');
+            root.join(OsStr::from_bytes(&n))
+        } else {
+            root.join(format!("D{}", i))
+        };
         match e {
             Entry::Missing => {
                 path_strs.push(d.clone().into_os_string());
@@ -147,7 +157,7 @@ pub fn check_case(ctx: &Ctx, case: &PathCase, rep: &mut CaseReport) -> CaseResul
                     path_strs.push(d.clone().into_os_string());
                 } else {
                     mk_runnable_dir(&d);
-                    path_strs.push(OsString::from(format!("D{}", i)));
+                    path_strs.push(d.file_name().unwrap().to_os_string());
                 }
                 model.push(Some((d, None)));
             }
@@ -350,7 +360,7 @@ pub fn case_strategy() -> impl Strategy<Value = PathCase> {
         5 => Just(None),
         2 => (prop_oneof![Just(Slash::DotSlash), Just(Slash::Sub), Just(Slash::Absolute)], prop_oneof![3 => Just(true), 1 => Just(false)]).prop_map(Some),
     ];
-    (name, entries, any::<bool>(), slash, any::<bool>()).prop_map(|(name, entries, via_executable, slash, cwd)| PathCase { name, entries, via_executable, slash, cwd })
+    (name, entries, any::<bool>(), slash, any::<bool>(), prop_oneof![3 => Just(false), 1 => Just(true)]).prop_map(|(name, entries, via_executable, slash, cwd, non_utf8)| PathCase { name, entries, via_executable, slash, cwd, non_utf8 })
 }
 
 fn worker(ctx: &Ctx) {
